@@ -604,7 +604,8 @@ func (c *ExpressionParser) performSyntaxAnalysisAtLevel6() error {
 		for true {
 			c.moveToNextToken()
 			token = c.getCurrentToken()
-			if token == nil || token.Type() == RightBrace {
+			// An empty argument list ends here; after a comma an argument must follow
+			if token == nil || (token.Type() == RightBrace && paramCount == 0) {
 				break
 			}
 
